@@ -30,7 +30,9 @@ Lists(gs) == {ColItems(gs) \o <<AI("count", "", "c")>>,
               ColItems(gs) \o <<AI("avg", "a", "av"), AI("count", "a", "ca")>>,
               <<AI("count", "", "c"), AI("sum", "a", "s")>>,
               <<Star>>,
-              <<AI("min", "b", "m"), AI("sum", "b", "s")>> \o ColItems(gs)}
+              <<AI("min", "b", "m"), AI("sum", "b", "s")>> \o ColItems(gs),
+              \* several aggregates over one column, AVG first (its own value is open when the column has NULLs)
+              ColItems(gs) \o <<AI("avg", "b", "av"), AI("sum", "b", "s"), AI("max", "b", "mx"), AI("count", "", "c")>>}
 WH == {<<None, None>>,
        <<CmpE(">", Col("a"), LN(1)), None>>,
        <<None, CmpE(">", Agg("count", <<>>), LN(1))>>,
@@ -38,15 +40,23 @@ WH == {<<None, None>>,
        <<CmpE(">", Col("a"), LN(1)), CmpE("<=", Agg("max", <<"a">>), LN(2))>>}
 
 \* without GROUP BY: select lists made only of aggregates
-AggLists == {<<AI("count", "", "c")>>,
+AggLists == {<<AI("avg", "b", "av"), AI("sum", "b", "s"), AI("min", "b", "m")>>,
+             <<AI("count", "", "c")>>,
              <<AI("sum", "a", "s"), AI("sum", "b", "s2")>>,
              <<AI("min", "a", "mn"), AI("max", "b", "mb"), AI("avg", "a", "av"), AI("count", "", "c")>>,
              <<AI("sum", "a", "x"), AI("sum", "a", "y"), AI("min", "b", "m")>>}
 AggWheres == {None, CmpE(">", Col("a"), LN(1)), CmpE(">", Col("a"), LN(100)), CmpE("=", Col("g"), LN(0)),
               AndE(CmpE("=", Col("h"), LS(<<120>>)), CmpE("<", Col("a"), LN(3)))}
 
+\* many groups on one column: more than eight distinct keys, later ones recurring
+ManyKeys == {<<1, 2, 3, 4, 5, 6, 7, 8, 9, 9, 10, 3, 9>>, <<1, 2, 3, 4, 5, 6, 7, 8, 9, 10, 11, 10, 9, 1>>, <<9, 8, 7, 6, 5, 4, 3, 2, 1, 0, 1, 0>>}
+ManyTable(ks) == [i \in 1..Len(ks) |-> R(ks[i], X, Null, i, IF i % 3 = 0 THEN Null ELSE NumV(i))]
+
 Init ==
-    /\ \/ \E tbl \in SeqsUpTo(Rows, MaxRows) : \E gs \in GroupSets : \E sl \in Lists(gs) : \E wh \in WH :
+    /\ \/ \E ks \in ManyKeys : \E sl \in Lists(<<"g">>) : \E wh \in {<<None, None>>, <<CmpE(">", Col("a"), LN(1)), None>>} :
+            cs = [fam |-> "group", doc |-> Doc1("t", ManyTable(ks)),
+                  q |-> [BaseQ EXCEPT !.sel = sl, !.group = <<"g">>, !.where = wh[1], !.having = wh[2]]]
+       \/ \E tbl \in SeqsUpTo(Rows, MaxRows) : \E gs \in GroupSets : \E sl \in Lists(gs) : \E wh \in WH :
             cs = [fam |-> "group", doc |-> Doc1("t", tbl),
                   q |-> [BaseQ EXCEPT !.sel = sl, !.group = gs, !.where = wh[1], !.having = wh[2]]]
        \/ \E tbl \in SeqsUpTo(Rows, MaxRows) : \E sl \in AggLists : \E w \in AggWheres :
